@@ -46,6 +46,11 @@ ALL_CELLS = len(SWEEP) * 5   # x preceding event {none, overwrite-shorter, overw
 class World(object):
     def __init__(self):
         self.dir = tempfile.mkdtemp(prefix="verif-c16-")
+        os.chdir(self.dir)                          # relative names are resolved against the scratch directory
+        self.cwd = os.getcwd()
+        m = os.umask(0o022)
+        os.umask(m)
+        self.umask = m
         self.alias = self.dir + "-alias"          # a second name for the same directory
         try:
             os.symlink(self.dir, self.alias)
@@ -113,6 +118,10 @@ class C16(Profile):
 
     def close_world(self, world):
         try:
+            os.chdir("/")
+        except OSError:
+            pass
+        try:
             if world.alias != world.dir:
                 os.unlink(world.alias)
         except OSError:
@@ -138,6 +147,10 @@ class C16(Profile):
             return world.dir + "//" + name
         if sp == 3:
             return os.path.join(world.dir, "..", os.path.basename(world.dir), name)
+        if sp == 6:
+            return name                                             # relative to the current directory
+        if sp == 7:
+            return "./" + name
         if sp == 4:
             return os.path.join(world.alias, name)                  # through a symbolic link to the directory
         if sp == 5:
@@ -205,6 +218,24 @@ class C16(Profile):
         if not out.ok:
             agg_add(st["outcomes"], out.exc)
         viol = self._check(world, op, out, step, kind, fired_kinds, fallback)
+        if viol is None:
+            # process-wide state that later operations depend on must be as it was: current directory, umask
+            cwd = capture(os.getcwd)
+            m = os.umask(0o022)
+            os.umask(m)
+            if not cwd.ok or cwd.value != world.cwd or m != world.umask:
+                rec = world.model.get(op["f"])
+                rec = rec if isinstance(rec, dict) else {"dt": 0.01, "values": [0.0, 0.0]}
+                viol = {"property": "C16", "step": step, "invariant": "process-state-unchanged", "field": "cwd/umask", "via": op["via"],
+                        "dt_class": dt_class(rec["dt"]), "n_class": n_class(len(rec["values"])), "branch": None,
+                        "fault": (fired_kinds[-1] if fired_kinds else None), "after": kind,
+                        "what": "%s left the process changed: cwd %r (was %r), umask %o (was %o)" % (
+                            kind, cwd.value if cwd.ok else cwd.exc, world.cwd, m, world.umask)}
+                try:
+                    os.chdir(world.cwd)
+                    os.umask(world.umask)
+                except OSError:
+                    pass
         return out.digest(), viol
 
     # ------------------------------------------------------------------------------------------
@@ -481,13 +512,13 @@ class Gen(object):
             else:
                 op = self.g_save(f)
                 if rng.random() < 0.2:
-                    op["spell"] = rng.choice([1, 2, 3, 4, 4, 5, 5])
+                    op["spell"] = rng.choice([1, 2, 3, 4, 4, 5, 5, 6, 6, 7])
             self.saved.setdefault(f, []).append({k: v for k, v in op.items() if k != "fault"})
             self.saved[f] = self.saved[f][-3:]
         else:
             op = self.g_load(world, f)
             if rng.random() < 0.15:
-                op["spell"] = rng.choice([1, 2, 3, 4, 4, 5, 5])
+                op["spell"] = rng.choice([1, 2, 3, 4, 4, 5, 5, 6, 6, 7])
         if self.cfg["faults_on"] and self.last_faulted != f:
             self._maybe_fault(op)
             if op.get("fault"):
